@@ -299,20 +299,50 @@ def _validate(ctx, case, rq, w, t, wanted, model, min_conf, dust, netinfo, stage
     # with the rate of the signed size, which carries the size-estimation error tolerated below
     tol_lo, tol_hi = (1.0, 1.0) if stage == 'create' else (0.75, 1.25)
     if fpk is not None and not (fee_min * tol_lo <= fpk <= fee_max * tol_hi + (0 if stage == 'create' else dust * 10)):
-        bad('feerate.reported', 'reported fee_per_kb %r outside [%d, %d]' % (fpk, fee_min, fee_max))
+        above_only = fpk > fee_max and stage == 'bumpfee'
+        ctx.disc('feerate.reported:' + stage, 'reported fee_per_kb %r outside [%d, %d] [request %r]' %
+                 (fpk, fee_min, fee_max, rq), case,
+                 kf='C07-bumpfee-fee-above-network-maximum' if above_only else None)
+        return
     signed = all((i.signatures or i.witnesses) for i in t.inputs)
     if signed:
         vsize = r.vsize()
         real = fee * 1000.0 / vsize
         slack = dust * 1000.0 / vsize
         if real < fee_min * 0.75 or real > fee_max * 1.25 + slack:
-            bad('feerate.real', 'real fee rate %.1f sat/kB (fee %d, vsize %d) outside limits [%d, %d] +-25%%' %
-                (real, fee, vsize, fee_min, fee_max))
+            above_only = real > fee_max and stage == 'bumpfee'
+            ctx.disc('feerate.real:' + stage, 'real fee rate %.1f sat/kB (fee %d, vsize %d) outside limits [%d, %d] '
+                     '+-25%% [request %r]' % (real, fee, vsize, fee_min, fee_max, rq), case,
+                     kf='C07-bumpfee-fee-above-network-maximum' if above_only else None)
+            return
         ctx.klass('feerate.checked_signed')
 
 
 def replay(ctx, case):
     run_case(ctx, case)
+
+
+def probes(ctx):
+    saved = ctx.findings
+    ctx.findings = {}
+    case = {'kind': 'wallet', 'rng': 7,
+            'wallet': {'kind': 'hd', 'network': 'bitcoinlib_test', 'witness_type': 'segwit', 'seed': '11' * 16,
+                       'm': 1, 'n': 1, 'afs': False},
+            'utxos': [{'key': 0, 'value': 10 ** 8, 'conf': 5, 'n': 0}],
+            'requests': [{'op': 'send', 'outputs': [{'kind': 'p2pkh', 'payload': '22' * 20, 'own': 0,
+                                                     'amount': {'of': 'total', 'num': 1, 'den': 10, 'plus': 0}}],
+                          'fee': 5000, 'n_change': 1, 'min_confirms': 1, 'max_utxos': None, 'rbf': True,
+                          'sweep_list': False, 'bump': {'mode': 'fee', 'num': 1, 'amount': 10 ** 6}}]}
+    try:
+        try:
+            replay(ctx, case)
+            ctx.probe('C07-bumpfee-fee-above-network-maximum', False, '')
+        except Discrepancy as d:
+            ctx.probe('C07-bumpfee-fee-above-network-maximum', d.bucket.startswith('feerate.'),
+                      'bumpfee(fee=...) accepts a fee rate above the network maximum (pinned by '
+                      'test_wallet_transactions_bumpfee): %s' % d.message[:120])
+    finally:
+        ctx.findings = saved
 
 
 def _strategy(ctx):
